@@ -1,9 +1,9 @@
 SPECIFICATION Spec
 CONSTANTS
   Bs = {16, 130}
-  WClasses = {"0", "1", "B", "B+1", "2B+1", "L+1"}
-  OClasses = {"0", "B", "B+1", "L+1", "126"}
-  PClasses = {"0", "126", "PB+1"}
+  WClasses = {"0", "B", "B+1", "L+1"}
+  OClasses = {"0", "B+1", "L+1"}
+  PClasses = {"0", "PB+1"}
   MaxOps = 4
   MaxWrites = 2
 INVARIANTS TypeOK Monitor Dangling ControlLimit ErrorsEmitNothing
